@@ -165,6 +165,10 @@ def cases(tier, seed):
             out.append({"stream": "diff", "fn": "diff", "args": [a, b, ab]})
     for i, (a, b) in enumerate(pairs):
         out.append({"stream": "time-minus-time", "fn": "op_sub_time", "args": [a, b, i % 3]})
+    # the public component fields of the returned Duration (oracle-only: the Duration constructor is C09's model); sub-second
+    # differences of either sign are the sensitive region (sign taken from truncated seconds, borrowed microseconds, ...)
+    for i, (a, b) in enumerate(pairs):
+        out.append({"stream": "diff-fields", "fn": "diff_fields", "args": [a, b, i % 4]})
     # closest / farthest
     sub = B_TOD if big else B_TOD[::2]
     triples = [(t, a, b) for t in sub for a in sub for b in sub]
@@ -252,6 +256,11 @@ def impl_run(cases):
                 d = t1.diff(t2, bool(a[2]))
                 cls_ok = type(d) is (AbsoluteDuration if a[2] else Duration)
                 out.append([0] + _dur(d) + [int(cls_ok)])
+            elif fn == "diff_fields":
+                v = a[2]
+                t1, t2 = T(*_fields(a[0])), T(*_fields(a[1]))
+                d = t1.diff(t2, False) if v == 0 else t1.diff(t2, True) if v == 1 else (t2 - t1) if v == 2 else (datetime.time(*_fields(a[1])) - t1)
+                out.append([0, d.years, d.months, d.weeks, d.remaining_days, d.hours, d.minutes, d.remaining_seconds, d.microseconds])
             elif fn == "op_sub_time":
                 v = a[2]
                 me = T(*_fields(a[0]))
@@ -445,6 +454,19 @@ def oracle(c, backend, r):
         if a[2] and r[1] < 0:
             return "abs=True returned a negative total"
         return None if r[4] == 1 else "wrong Duration class"
+    if fn == "diff_fields":
+        d = a[1] - a[0]
+        if a[2] == 1:
+            d = abs(d)
+        if r[0] != 0:
+            return f"diff raised {r}"
+        sg = -1 if d < 0 else 1
+        m = abs(d)
+        exp = [0, 0, 0, 0, 0, sg * (m // 3600000000), sg * (m // 60000000 % 60), sg * (m // 1000000 % 60), sg * (m % 1000000)]
+        if r != exp:
+            return (f"variant {a[2]}: Time{_fields(a[0])} vs Time{_fields(a[1])}: the Duration reports [years, months, weeks, remaining_days, hours, "
+                    f"minutes, remaining_seconds, microseconds] = {r[1:]}, the signed difference {d} us is {exp[1:]}")
+        return None
     if fn == "op_sub_time":
         d = (a[0] - a[1]) if a[2] != 2 else (a[1] - a[0])
         if r[0] != 0:
